@@ -64,7 +64,18 @@ def readbacks(ra, astype_to):
     out["dtype"] = str(ra.dtype) if ra.size else None
     t = ra.astype(astype_to)
     out["astype"] = norm(t)
+    # a conversion result is an array of its own (numpy's astype contract): writing to it leaves the source alone, and vice versa
+    t2 = ra.astype(astype_to)
+    flat_t = t.ravel()
+    if flat_t.size:
+        flat_t[...] = 1 if not flat_t.astype(bool).any() else 0
     out["astype-source-after"] = ra.tolist()
+    flat = ra.ravel()
+    keep = flat.copy()
+    if flat.size:
+        flat[...] = 1 if not flat.astype(bool).any() else 0
+    out["astype-after-source-write"] = norm(t2)
+    flat[...] = keep
     return out
 
 
@@ -87,6 +98,7 @@ def expected_readbacks(a, astype_to):
     out["astype"] = {"k": "ragged", "rows": [r.astype(astype_to).tolist() for r in rows], "lens": lens, "n": len(lens),
                      "dt": str(np.dtype(astype_to)) if tot else None}
     out["astype-source-after"] = [r.tolist() for r in rows]
+    out["astype-after-source-write"] = out["astype"]
     return out
 
 
